@@ -166,6 +166,16 @@ def reloadConfig (s : State) (parsed : Except String (List GConfig)) : Except Fa
     let d := diffToActive s'.file (s.active.map (·.cfg))
     (.ok (d.added.map (·.name), d.changed.map (·.name), d.removed.map (·.name)), s')
 
+/-- config.after_setuid() → create_autochildlogs(): activating a group replaces every AUTO log file of its
+    (shared, mutable) config object by a generated name, which no longer matches an explicit name but still matches
+    the AUTO of a later parse -/
+def resolveLf : LogFile → LogFile
+  | .auto => .resolved
+  | l => l
+def resolveP (p : PConfig) : PConfig :=
+  { p with stdout_logfile := resolveLf p.stdout_logfile, stderr_logfile := resolveLf p.stderr_logfile }
+def resolveCfg (g : GConfig) : GConfig := { g with procs := g.procs.map resolveP }
+
 def freshProcs (g : GConfig) : List Proc := g.procs.map fun p => { name := p.name, pid := 0, stopped := true }
 
 def addProcessGroup (s : State) (n : String) : Except Fault Unit × State :=
@@ -173,7 +183,7 @@ def addProcessGroup (s : State) (n : String) : Except Fault Unit × State :=
   | none => (.error .badName, s)
   | some g =>
     if (s.find n).isSome then (.error .alreadyAdded, s)
-    else (.ok (), { s with active := s.active ++ [{ cfg := g, procs := freshProcs g }] })
+    else (.ok (), { s with active := s.active ++ [{ cfg := resolveCfg g, procs := freshProcs g }] })
 
 def removeProcessGroup (s : State) (n : String) : Except Fault Unit × State :=
   match s.find n with
